@@ -451,6 +451,19 @@ def normalize(form, s):
     return T.raw_op('NORM', form, s)
 
 
+def encode(recv, enc=None, errors=None):
+    enc = enc if enc is not None else T.const('utf-8')
+    errors = errors if errors is not None else T.const('strict')
+    if T.is_const(enc) and isinstance(enc[1], str) and enc[1].lower().replace('_', '-') in ('utf-8', 'utf8'):
+        enc = T.const('utf-8')
+    if T.is_const(recv) and isinstance(recv[1], str) and T.is_const(enc) and errors == T.const('strict'):
+        try:
+            return T.const(recv[1].encode(enc[1]))
+        except Exception:
+            return T.raise_('UnicodeEncodeError')
+    return T.raw_op('ENCODE', recv, enc, errors)
+
+
 def fromhex(s):
     if T.is_const(s) and isinstance(s[1], str):
         try:
@@ -560,15 +573,7 @@ def method_call(ev, recv, name, args, kwargs, fr, node):
     # str
     if name == 'encode':
         a = _kw(args, kwargs, ['encoding', 'errors'], {'encoding': T.const('utf-8'), 'errors': T.const('strict')})
-        enc = a['encoding']
-        if T.is_const(enc) and isinstance(enc[1], str) and enc[1].lower().replace('_', '-') in ('utf-8', 'utf8'):
-            enc = T.const('utf-8')
-        if T.is_const(recv) and isinstance(recv[1], str) and T.is_const(enc) and a['errors'] == T.const('strict'):
-            try:
-                return T.const(recv[1].encode(enc[1]))
-            except Exception:
-                return T.raise_('UnicodeEncodeError')
-        return T.raw_op('ENCODE', recv, enc, a['errors'])
+        return encode(recv, a['encoding'], a['errors'])
     if name == 'format':
         return fmt(ev, recv, args, kwargs, fr)
     if name == 'join':
